@@ -179,14 +179,27 @@ RACE_RE = re.compile(r"WARNING: DATA RACE\n(.*?)\n==================", re.S)
 
 
 def race_in_repo(text):
-    """A race report counts when one of its stacks has a frame in repository
-    (non-test, non-harness) code."""
+    """A race report counts as a violation when, for one of the two conflicting accesses, the
+    innermost frame that is neither Go runtime/standard library nor a third-party module lies
+    in repository (non-test, non-harness) code.  Races whose accesses both sit in harness code
+    are harness bugs (reported as inconclusive)."""
     for m in RACE_RE.finditer(text):
         block = m.group(1)
-        for line in block.splitlines():
-            line = line.strip()
-            if "go-ntrip" in line and ".go:" in line and "_test.go" not in line and "/vh/" not in line:
-                return block
+        sections = re.split(r"\n\n", block)
+        for sec in sections:
+            first = sec.strip().splitlines()[0] if sec.strip() else ""
+            if not re.match(r"(Previous )?(atomic )?([Ww]rite|[Rr]ead) at ", first):
+                continue
+            for line in sec.splitlines():
+                line = line.strip()
+                if ".go:" not in line:
+                    continue
+                harness = ("/vh/" in line or line.startswith("vh/") or "/vhsched/" in line or "_test.go" in line)
+                repo = "go-ntrip" in line
+                if harness:
+                    break
+                if repo:
+                    return block
     return None
 
 
